@@ -19,7 +19,7 @@ func init() {
 		Level: "other",
 		Explanation: "Decided (structural necessary conditions of 'exports parse back'): (R14.1) inside package rag an io.Writer handed to an export function only ever reaches encoding/json or encoding/csv encoders (or another export function held to the same rule): no hand-written serialisation of chunk data; (R14.2) every constant column name produced by collectCSVColumns has a value case in getColumnValue and is known to isStandardColumn, and metadata columns carry the meta_ prefix both where they are produced and where they are read; (R14.3) the column set is sorted before use (map-order rule of C03 on the export code); (R14.4) ChunkCollection.Filter is a pure forward selection that calls the predicate exactly once per chunk, and every FilterBy*/Search delegates to it; (R14.5) batch windows tile the input: the loop advances by the batch size and each window is chunks[i:min(i+size,len)]; one record is produced per chunk with the loop index as position; (R14.6) Exporter methods keep no state between calls. " +
 			"Not decided: field-by-field equality after re-parsing, number formatting, the vector-database record layouts.",
-		Rules: []func(*eng.Ctx){ruleRowFieldsByColumnName, ruleNilListMeansAll, loopVarRule("R14.LV", "rag"), ruleWriterDiscipline, ruleColumnAgreement, ruleExportMapOrder, ruleCollectionFilter, ruleBatchPartition, ruleExporterStateless, ruleCSVNoCRLF, roleRule("R14.R", "rag"), ruleExportNoEmptyShortcut, ruleExportFieldCopy, ruleShortLoop, rulePageRangeOverlap, ruleExportTruncates, ruleSearchNormalisesBoth, ruleBatchDataOwn},
+		Rules: []func(*eng.Ctx){ruleExportNotTrimmed, ruleRowFieldsByColumnName, ruleNilListMeansAll, loopVarRule("R14.LV", "rag"), ruleWriterDiscipline, ruleColumnAgreement, ruleExportMapOrder, ruleCollectionFilter, ruleBatchPartition, ruleExporterStateless, ruleCSVNoCRLF, roleRule("R14.R", "rag"), ruleExportNoEmptyShortcut, ruleExportFieldCopy, ruleShortLoop, rulePageRangeOverlap, ruleExportTruncates, ruleSearchNormalisesBoth, ruleBatchDataOwn},
 	})
 }
 
@@ -161,6 +161,44 @@ func ruleColumnAgreement(c *eng.Ctx) {
 			}
 		}
 	})
+	// the fixed names may be appended from a read-only package-level list: append(columns, fixedColumns...)
+	eng.Instrs(coll, true, func(in ssa.Instruction) {
+		call, ok := in.(*ssa.Call)
+		if !ok || eng.CalleeName(call) != "builtin:append" || len(call.Call.Args) != 2 {
+			return
+		}
+		for w := range eng.Slice(call.Call.Args[1], nil) {
+			if g, ok := w.(*ssa.Global); ok {
+				if strs, ok := eng.GlobalLiteralStrings(g); ok {
+					for _, sname := range strs {
+						produced[sname] = true
+					}
+				}
+			}
+		}
+	})
+	// the standard-key predicate may read a set built by an initialiser: it is evaluated on the names in play
+	{
+		cand := map[string]bool{"id": true, "text": true}
+		for n := range produced {
+			cand[n] = true
+		}
+		for k := range stdKeys {
+			cand[k] = true
+		}
+		if len(std.Params) == 1 {
+			for k := range cand {
+				if stdKeys[k] {
+					continue
+				}
+				if got, err := eng.NewEvaluator().Call(std, []any{k}, 0); err == nil {
+					if b, ok := got.(bool); ok && b {
+						stdKeys[k] = true
+					}
+				}
+			}
+		}
+	}
 	names := make([]string, 0, len(produced))
 	for n := range produced {
 		names = append(names, n)
@@ -579,6 +617,15 @@ func ruleBatchExporters(c *eng.Ctx, R string) {
 			if isLd {
 				if ia, ok := ld.X.(*ssa.IndexAddr); ok && ia.X == list && ia.Index == args[2] {
 					okEl = true
+				}
+				// `for i, rest := 0, chunks; len(rest) > 0; i, rest = i+1, rest[1:]`: the element is rest[0] of a cursor
+				// that starts at the list and drops one element per trip, the position a counter of the same loop
+				if ia, ok := ld.X.(*ssa.IndexAddr); ok {
+					if base, isCur := eng.ShrinkingCursor(ia); isCur && base == list {
+						if ph, okp := eng.Induction(args[2]); okp && ph.Block() == ia.X.(*ssa.Phi).Block() {
+							okEl = true
+						}
+					}
 				}
 			}
 			ok = isInd && okEl
